@@ -122,8 +122,15 @@ def build_all(need_probe=False, quiet=False):
     if need_probe:
         pdir = os.path.join(VERIF, "sim", "probe")
         shutil.copyfile(os.path.join(REPO, "Cargo.lock"), os.path.join(pdir, "Cargo.lock"))
-        for feat, tdir in (("", "probe"), ("--features tag_b", "probe_b")):
-            r = sh("cargo build --offline %s --manifest-path %s/Cargo.toml --target-dir %s/%s" % (feat, pdir, BUILD, tdir), env=env)
+        os.makedirs(os.path.join(BUILD, "probe_lazy"), exist_ok=True)
+        stub = os.path.join(BUILD, "probe_lazy", "stub.o")
+        r = sh("gcc -fPIC -fplt -O0 -c %s/stub.c -o %s" % (pdir, stub))
+        if r.returncode != 0:
+            raise HarnessError("probe stub build failed:\n" + r.stdout.decode(errors="replace"))
+        lazy_env = dict(env)
+        lazy_env["RUSTFLAGS"] = env["RUSTFLAGS"] + " -C link-arg=%s -C link-arg=-Wl,-z,lazy" % stub
+        for feat, tdir, e in (("", "probe", env), ("--features tag_b", "probe_b", env), ("--features lazy_dep", "probe_lazy", lazy_env)):
+            r = sh("cargo build --offline %s --manifest-path %s/Cargo.toml --target-dir %s/%s" % (feat, pdir, BUILD, tdir), env=e)
             if r.returncode != 0:
                 raise HarnessError("probe build failed:\n" + r.stdout.decode(errors="replace")[-6000:])
     self_test()
@@ -271,6 +278,9 @@ def run_cmd(cwd, args, plan=None, gc=None, streams="pipes", timeout=20, dump=Fal
         try:
             with open(dump_path, "r", errors="replace") as f:
                 res["dump"] = f.read()
+            # an entry file spelled as an absolute path embeds the world directory, which differs between the legs of a case
+            import re
+            res["dump"] = re.sub(re.escape(worker_dir()) + r"/[a-z]+(?=/)", "<world>", res["dump"])
         except FileNotFoundError:
             res["dump"] = ""
     for p in (plan_path, log_path, stats_path, dump_path):
